@@ -85,6 +85,8 @@ NULLI = lambda: lit('nulli', '*')   # noqa
 SPLIT = lambda: lit('split', '*^')  # noqa
 JOIN = lambda: lit('join', '*v')    # noqa
 TERM = lambda: lit('term', '*-')    # noqa
+ADD = lambda: lit('add', '*+')      # noqa   add-spine operator: continues twice; the next line names the new spine (**type)
+EXCH = lambda: lit('exch', '*x')    # noqa   exchange operator: not supported by kernpy (the import must raise)
 
 
 class DocGen:
@@ -375,7 +377,7 @@ class DocGen:
         j = 0
         while j < n:
             k = cells[j]['k']
-            if k == 'split':
+            if k in ('split', 'add'):
                 new += [paths[j], paths[j]]
             elif k == 'term':
                 pass
@@ -498,7 +500,7 @@ def path_tracker(lines):
             p = paths[j]
             if k in ('clef', 'keysig', 'timesig', 'meter'):
                 p['sigs'][k] = tuple(cells[j]['t'])
-            if k == 'split':
+            if k in ('split', 'add'):
                 new += [dict(p, sigs=dict(p['sigs']), depth=p['depth'] + 1), dict(p, sigs=dict(p['sigs']), depth=p['depth'] + 1)]
             elif k == 'term':
                 pass
